@@ -13,14 +13,17 @@ from liquid.token import Token
 class ContentNode(Node):
     """Parse tree node for template content."""
 
-    __slots__ = ("text",)
+    __slots__ = ("text", "raw")
 
-    def __init__(self, token: Token, text: str):
+    def __init__(self, token: Token, text: str, *, raw: bool = False):
         super().__init__(token)
         self.blank = not text or text.isspace()
         self.text = text
+        self.raw = raw
 
     def __str__(self) -> str:
+        if self.raw:
+            return f"{{% raw %}}{self.text}{{% endraw %}}"
         return self.text
 
     def render_to_output(self, _: RenderContext, buffer: TextIO) -> int:
@@ -38,4 +41,13 @@ class Literal(Tag):
     def parse(self, stream: TokenStream) -> ContentNode:
         """Parse tokens from _stream_ into an AST node."""
         token = stream.expect(TOKEN_CONTENT)
-        return self.node_class(token, token.value)
+        # Only text from a raw block can contain something that looks like markup.
+        raw = any(
+            delim and delim in token.value
+            for delim in (
+                self.env.tag_start_string,
+                self.env.statement_start_string,
+                self.env.comment_start_string,
+            )
+        )
+        return self.node_class(token, token.value, raw=raw)
